@@ -64,30 +64,67 @@ func Pick[T any](r *Rand, xs []T) T { return xs[r.Intn(len(xs))] }
 // Coq literals.  Numbers are printed with explicit scopes so that a case file needs no
 // particular open scope.
 
-// Bytes prints a byte string as a list of N.
+// Bytes prints a byte string with GS.Base.Bytes.s1 / sp: chunks of up to 7 bytes packed
+// big-endian into primitive 63-bit integer literals under a 0x01 sentinel byte (primitive
+// integers are parsed natively; N/Z numerals and list-of-byte literals are ~8x slower).
 func Bytes(s string) string {
 	if len(s) == 0 {
 		return "[]"
 	}
+	chunk := func(c string) string {
+		v := uint64(1)
+		for i := 0; i < len(c); i++ {
+			v = v<<8 | uint64(c[i])
+		}
+		return strconv.FormatUint(v, 10)
+	}
+	if len(s) <= 7 {
+		return "(s1 " + chunk(s) + ")"
+	}
 	var b strings.Builder
-	b.WriteString("[")
-	for i := 0; i < len(s); i++ {
+	b.WriteString("(sp [")
+	for i := 0; i < len(s); i += 7 {
+		j := i + 7
+		if j > len(s) {
+			j = len(s)
+		}
 		if i > 0 {
 			b.WriteByte(';')
 		}
-		b.WriteString(strconv.Itoa(int(s[i])))
+		b.WriteString(chunk(s[i:j]))
 	}
-	b.WriteString("]%N")
+	b.WriteString("]%uint63)")
 	return b.String()
 }
 
 func BytesB(s []byte) string { return Bytes(string(s)) }
 
-func Z(v int64) string { return "(" + strconv.FormatInt(v, 10) + ")%Z" }
+// Z prints an integer as a Z term (GS.Base.Bytes.zi / zn / zw over primitive integer literals).
+func Z(v int64) string {
+	if v >= 0 {
+		return ZU(uint64(v))
+	}
+	if v == math.MinInt64 {
+		return "(-9223372036854775808)%Z"
+	}
+	return "(zn " + strconv.FormatUint(uint64(-v), 10) + ")"
+}
 
-func ZU(v uint64) string { return "(" + strconv.FormatUint(v, 10) + ")%Z" }
+// ZU prints an unsigned 64-bit value (e.g. a float64 bit pattern) as a Z term.
+func ZU(v uint64) string {
+	if v < 1<<62 {
+		return "(zi " + strconv.FormatUint(v, 10) + ")"
+	}
+	return "(zw " + strconv.FormatUint(v>>32, 10) + " " + strconv.FormatUint(v&0xffffffff, 10) + ")"
+}
 
-func N(v uint64) string { return strconv.FormatUint(v, 10) + "%N" }
+// N prints a natural number as an N term.
+func N(v uint64) string {
+	if v < 1<<62 {
+		return "(ni " + strconv.FormatUint(v, 10) + ")"
+	}
+	return strconv.FormatUint(v, 10) + "%N"
+}
 
 func Nat(v int) string { return strconv.Itoa(v) + "%nat" }
 
